@@ -36,7 +36,7 @@ REAL, STUBBED = C.REAL, C.STUBBED
 
 
 def budget(tier):
-    return dict(nights=140, wall_s=170) if tier == "quick" else dict(nights=4000, wall_s=1700)
+    return dict(nights=350, wall_s=240) if tier == "quick" else dict(nights=4000, wall_s=1700)
 
 
 WORLD = dict(offices=["G", "S", "H"], unit_types=["precinct", "precinct", "county"], n_states=(1, 3), n_counties=(2, 8),
